@@ -727,7 +727,9 @@ fn sig_map(w: &World, d: &InterpreterData) -> BTreeMap<String, String> {
 }
 pub fn c15(m: &mut Mon, w: &mut World, idx: usize) {
     let r = &w.runs[idx];
-    if r.cur.is_empty() || r.prev.is_empty() || r.cur_forged {
+    // forged input is other properties' business, except the sender's equivocation about its own results
+    let equivocation_only = !r.forge_kinds.is_empty() && r.forge_kinds.iter().all(|k| k == "own_rewrite");
+    if r.cur.is_empty() || r.prev.is_empty() || (r.cur_forged && !equivocation_only) {
         return;
     }
     let (Ok(a), Ok(b)) = (interp::decode(&r.prev), interp::decode(&r.cur)) else { return };
